@@ -25,9 +25,21 @@ def addr_bits(depth: int) -> int:
     return max(1, (depth - 1).bit_length())
 
 
+def total_width(cfg) -> int:
+    """Row width in bits; `width` is the element width when the row is an ArrayLayout of `elems` elements."""
+    return cfg["width"] * (cfg.get("elems") or 1)
+
+
+def en_width(cfg) -> int:
+    """Enable bits of a write port of the ideal memory (granularity counts elements for array rows)."""
+    if cfg["gran"] is None:
+        return 1
+    return (cfg.get("elems") or cfg["width"]) // cfg["gran"]
+
+
 def cfg_facts(cfg) -> dict:
     """Flat, configuration-only facts (no knowledge of any outcome)."""
-    w = cfg["width"]
+    w = total_width(cfg)
     gran = cfg["gran"]
     return {
         "cls": cfg["cls"],
@@ -35,11 +47,13 @@ def cfg_facts(cfg) -> dict:
         "nr_gt1": cfg["nr"] > 1,
         "init_nonzero": any(v != 0 for v in cfg["init"]),
         "gran_set": gran is not None,
-        "gran_multi": gran is not None and gran < w,  # more than one enable bit
+        "gran_multi": en_width(cfg) > 1,  # more than one enable bit
         # an address does not fit into a register of the *data* shape
         "addr_trunc": addr_bits(cfg["depth"]) > w - (1 if cfg["signed"] else 0),
         "transparent": any(len(t) > 0 for t in cfg["transp"]),
         "signed": bool(cfg["signed"]),
+        "array_shape": bool(cfg.get("elems")),
+        "array_elem_gt1": bool(cfg.get("elems")) and cfg["width"] > 1,
     }
 
 
@@ -58,6 +72,8 @@ def zones_of(cfg) -> list:
         z.append("F5")
     if ilvt and f["gran_multi"] and f["nw_gt1"]:
         z.append("F6")
+    if f["array_elem_gt1"] and f["gran_set"]:  # granularity of array rows: elements (ideal) vs bits (under test)
+        z.append("N1")
     return z
 
 
@@ -65,16 +81,24 @@ class Scen(CompScenario):
     transactional = False
 
     def build(self):
-        from amaranth import Module, Signal, signed, unsigned
+        from amaranth import Module, Signal, Value, signed, unsigned
+        from amaranth.lib.data import ArrayLayout
         from amaranth.lib.memory import Memory
         from transactron.utils.amaranth_ext import memory as tmem
 
+        import warnings
+
+        # F4 on the unchanged tree: the ILVT receives the data init; amaranth reports every truncated value
+        warnings.filterwarnings("ignore", message=".*will be truncated to the memory shape.*")
         c = self.cfg
-        self.depth, self.width, self.nr, self.nw = c["depth"], c["width"], c["nr"], c["nw"]
+        self.depth, self.width, self.nr, self.nw = c["depth"], total_width(c), c["nr"], c["nw"]
         self.gran = c["gran"]
-        self.en_w = 1 if self.gran is None else self.width // self.gran
+        self.en_w = en_width(c)
         self.transp = [list(t) for t in c["transp"]]
-        shape = signed(self.width) if c["signed"] else unsigned(self.width)
+        if c.get("elems"):
+            shape = ArrayLayout(c["width"], c["elems"])
+        else:
+            shape = signed(self.width) if c["signed"] else unsigned(self.width)
         cls = getattr(tmem, CLASSES[c["cls"]])
 
         m = Module()
@@ -96,7 +120,7 @@ class Scen(CompScenario):
             self.add_input(f"w{j}.addr", addr)
             self.add_input(f"w{j}.data", dat)
             for p in (d, r):
-                m.d.comb += [p.en.eq(en), p.addr.eq(addr), p.data.eq(dat)]
+                m.d.comb += [p.en.eq(en), p.addr.eq(addr), Value.cast(p.data).eq(dat)]
         for i in range(self.nr):
             d = dut.read_port(transparent_for=[dwp[j] for j in self.transp[i]])
             r = ref.read_port(transparent_for=[rwp[j] for j in self.transp[i]])
@@ -106,8 +130,8 @@ class Scen(CompScenario):
             self.add_input(f"r{i}.addr", addr)
             for p in (d, r):
                 m.d.comb += [p.en.eq(en), p.addr.eq(addr)]
-            self.add_obs(f"dut.r{i}", d.data)
-            self.add_obs(f"ref.r{i}", r.data)
+            self.add_obs(f"dut.r{i}", Value.cast(d.data))
+            self.add_obs(f"ref.r{i}", Value.cast(r.data))
 
         # stimulus state
         self.script: dict = {}
@@ -336,8 +360,8 @@ class Prop(PropBase):
         "quick": {"runs": 480, "selftest_runs": 4},
         "thorough": {"runs": 9000, "selftest_runs": 32},
     }
-    rule = ("one run = one (class, depth, width, signedness, read/write port count, init, transparency set per "
-            "read port, granularity) configuration; the memory under test and an amaranth.lib.memory.Memory get the "
+    rule = ("one run = one (class, depth, row shape (width, signedness, array of elements), read/write port count, "
+            "init, transparency set per read port, granularity) configuration; the memory under test and an amaranth.lib.memory.Memory get the "
             "same port signals for 60-200 cycles from a seeded phase plan (random / read-after-write at distance "
             "0-2 / alternating writers / dropped read enable / read collisions / idle) over a small per-phase row "
             "pool; distinct = distinct (configuration, per read port (enable, distance to the last write of its "
@@ -376,12 +400,16 @@ class Prop(PropBase):
         nr = rng.choice([1, 2, 2, 3])
         nw = 1 if cls == "MultiRead" else rng.choice([1, 2, 2, 3])
         signed = rng.random() < 0.08 and width >= 2
+        elems = 0
+        if not signed and want != "F3" and rng.random() < (0.9 if want == "N1" else 0.12):
+            width, elems = rng.choice([(1, 4), (2, 2), (2, 3), (2, 4), (3, 2), (4, 2)])  # ArrayLayout rows
         gran = None
-        if cls != "XOR" and not signed and rng.random() < (0.8 if want in ("F5", "F6") else 0.4):
-            gran = rng.choice([g for g in range(1, width + 1) if width % g == 0])
+        if cls != "XOR" and not signed and rng.random() < (0.8 if want in ("F5", "F6", "N1") else 0.4):
+            n = elems or width
+            gran = rng.choice([g for g in range(1, n + 1) if n % g == 0])
         lo, hi = (-(1 << (width - 1)), (1 << (width - 1)) - 1) if signed else (0, (1 << width) - 1)
         init = []
-        if rng.random() < (0.9 if want in ("F2", "F4") else 0.5):
+        if not elems and rng.random() < (0.9 if want in ("F2", "F4") else 0.5):
             n = rng.choice([depth, depth, rng.randint(1, depth)])
             init = [rng.randint(lo, hi) if rng.random() < 0.8 else 0 for _ in range(n)]
         mode = rng.choice(["none", "all", "pairs", "pairs"])
@@ -395,8 +423,8 @@ class Prop(PropBase):
                 transp.append(list(range(nw)))
             else:
                 transp.append([j for j in range(nw) if rng.random() < 0.5])
-        return {"cls": cls, "depth": depth, "width": width, "signed": signed, "nr": nr, "nw": nw, "init": init,
-                "gran": gran, "transp": transp}
+        return {"cls": cls, "depth": depth, "width": width, "elems": elems, "signed": signed, "nr": nr, "nw": nw,
+                "init": init, "gran": gran, "transp": transp}
 
     def gen_config(self, rng, tier, idx):
         big = tier == "thorough"
@@ -404,7 +432,7 @@ class Prop(PropBase):
         if r < self.MIXED_RATE:
             target = "any"
         elif r < self.MIXED_RATE + self.ZONE_RATE:
-            target = rng.choice(["F2", "F3", "F4", "F5", "F6"])
+            target = rng.choice(["F2", "F3", "F4", "F5", "F6", "N1"])
         else:
             target = None
         for _ in range(400):
@@ -434,7 +462,8 @@ class Prop(PropBase):
         return {k: feats.get(k) for k in ("kind", "cls", "zone", "gran_multi", "port_transparent")}
 
     def cfg_signature(self, cfg):
-        return [cfg[k] for k in ("cls", "depth", "width", "signed", "nr", "nw", "gran", "transp")] + [bool(cfg["init"])]
+        return [cfg.get(k) for k in ("cls", "depth", "width", "elems", "signed", "nr", "nw", "gran", "transp")] + \
+            [bool(cfg["init"])]
 
     def shrink_cfg(self, cfg):
         """Smaller configurations inside the same class of known-defect predicates."""
@@ -475,6 +504,10 @@ class Prop(PropBase):
             c = dict(cfg)
             c["signed"] = False
             c["init"] = [v & ((1 << cfg["width"]) - 1) for v in cfg["init"]]
+            cands.append(c)
+        if cfg.get("elems") and cfg["gran"] is None:
+            c = dict(cfg)
+            c["width"], c["elems"] = total_width(cfg), 0
             cands.append(c)
         for c in cands:
             if ok(c):
